@@ -53,7 +53,9 @@ func ffBin(pat string, x, y *ff.Element, f func(z, x, y *ff.Element) *ff.Element
 	switch pat {
 	case "", "n":
 		z = ff.NewElement()
-		z[0] = 0xdeadbeef // dirty destination
+		for i := range z {
+			z[i] = 0xdeadbeef00000001 + uint64(i) // every limb of the destination is stale garbage
+		} // dirty destination
 		ret := f(z, x, y)
 		if ret != z {
 			return "!returned-other-object"
@@ -94,7 +96,9 @@ func ffUn(pat string, x *ff.Element, f func(z, x *ff.Element) *ff.Element) strin
 	switch pat {
 	case "", "n":
 		z = ff.NewElement()
-		z[0] = 0xdeadbeef
+		for i := range z {
+			z[i] = 0xdeadbeef00000001 + uint64(i) // every limb of the destination is stale garbage
+		}
 		ret := f(z, x)
 		if ret != z {
 			return "!returned-other-object"
@@ -186,7 +190,9 @@ func ffOp(op, pat string, args []string, a *argTrack) string {
 			z.Exp(*z, e)
 		} else {
 			z = ff.NewElement()
-			z[0] = 0xdeadbeef
+			for i := range z {
+				z[i] = 0xdeadbeef00000001 + uint64(i) // every limb of the destination is stale garbage
+			}
 			z.Exp(*x, e)
 			if *x != x0 {
 				return ffRes(z) + "!operand-modified"
@@ -255,19 +261,25 @@ func ffOp(op, pat string, args []string, a *argTrack) string {
 	case "setbigint":
 		need(args, 1)
 		z := ff.NewElement()
-		z[0] = 0xdeadbeef
+		for i := range z {
+			z[i] = 0xdeadbeef00000001 + uint64(i) // every limb of the destination is stale garbage
+		}
 		z.SetBigInt(a.Int(args[0]))
 		return ffRes(z)
 	case "setstring":
 		need(args, 1)
 		z := ff.NewElement()
-		z[0] = 0xdeadbeef
+		for i := range z {
+			z[i] = 0xdeadbeef00000001 + uint64(i) // every limb of the destination is stale garbage
+		}
 		z.SetString(args[0])
 		return ffRes(z)
 	case "setbytes":
 		need(args, 1)
 		z := ff.NewElement()
-		z[0] = 0xdeadbeef
+		for i := range z {
+			z[i] = 0xdeadbeef00000001 + uint64(i) // every limb of the destination is stale garbage
+		}
 		z.SetBytes(a.Bytes(args[0]))
 		return ffRes(z)
 	case "setuint64":
@@ -277,7 +289,9 @@ func ffOp(op, pat string, args []string, a *argTrack) string {
 			panic("harness: bad uint64")
 		}
 		z := ff.NewElement()
-		z[0] = 0xdeadbeef
+		for i := range z {
+			z[i] = 0xdeadbeef00000001 + uint64(i) // every limb of the destination is stale garbage
+		}
 		z.SetUint64(v)
 		z2 := ffFromU64(v)
 		if *z != *z2 {
@@ -287,7 +301,9 @@ func ffOp(op, pat string, args []string, a *argTrack) string {
 	case "setinterface":
 		need(args, 2)
 		z := ff.NewElement()
-		z[0] = 0xdeadbeef
+		for i := range z {
+			z[i] = 0xdeadbeef00000001 + uint64(i) // every limb of the destination is stale garbage
+		}
 		var arg interface{}
 		switch args[0] {
 		case "element":
